@@ -856,7 +856,7 @@ func init() {
 			floorKey("Send provenance", 3, "PROV/(*ChanPubSub).Send/"),
 			floorKey("Send paths", 3, "PATH/(*ChanPubSub).Send/"),
 			floorKey("Wait", 2, "/(*ChanPubSub).Wait/"),
-			floorKey("iterator", 3, "/(*ChanPubSub).SubscribeContext$1/"),
+			floorKey("iterator", 3, "/(*ChanPubSub).SubscribeContext$ret1/"),
 			floorKey("AT Send", 3, "AT/(*ChanPubSub).Send/"),
 			floorKey("REQ", 3, "REQ/(*ChanPubSub)"),
 			floorRule("WR", "WR", 1),
